@@ -8,7 +8,7 @@ import glob, json, os, re, subprocess, sys, time
 V = os.path.dirname(os.path.dirname(os.path.abspath(__file__)))
 only = sys.argv[1:]
 # the changes are applied to a scratch clone of /repo (removed at the end), so that /repo stays usable meanwhile
-R = "/var/tmp/mutrepo"
+R = os.environ.get("MUT_REPO", "/var/tmp/mutrepo")  # several instances may run side by side with different clones
 
 
 def sh(cmd, **kw):
@@ -36,6 +36,9 @@ for name, pid, patch, origin in items:
     if r.returncode != 0:
         res[name] = dict(property=pid, origin=origin, applies=False, note=r.stderr.strip()[:300])
         print(name, "DOES NOT APPLY")
+        cur = json.load(open(outp)) if os.path.exists(outp) else {}
+        cur[name] = res[name]
+        json.dump(cur, open(outp, "w"), indent=1, sort_keys=True)
         continue
     sh("git -C %s apply %s" % (R, patch))
     try:
@@ -52,8 +55,14 @@ for name, pid, patch, origin in items:
                      detected=bool(r and r.returncode == 1 and viol), violations=[list(v) for v in viol][:12],
                      n_violations=len(viol), machinery=mach[:3], wall_s=round(time.time() - t0))
     print(name, "exit", res[name]["exit"], "violations", len(viol), [v[0] + ":" + v[1] for v in viol[:3]], flush=True)
-    json.dump(res, open(outp, "w"), indent=1, sort_keys=True)
+    # read-modify-write: another instance may have added entries meanwhile
+    cur = json.load(open(outp)) if os.path.exists(outp) else {}
+    cur[name] = res[name]
+    res = cur
+    json.dump(res, open(outp + ".%d" % os.getpid(), "w"), indent=1, sort_keys=True)
+    os.replace(outp + ".%d" % os.getpid(), outp)
 sh("rm -rf " + R)
+res = json.load(open(outp)) if os.path.exists(outp) else res
 # markdown table
 lines = ["| change | origin | check exit | caught by (scenario : kind, first few) |", "|---|---|---|---|"]
 for name in sorted(res):
